@@ -10,6 +10,8 @@ mismatch builds, any new one breaks the lemma.
 -/
 import SnowModel.Core.Rrule
 import SnowModel.Generated.Schedule
+import SnowModel.Generated.Memorable
+import SnowModel.Generated.MemoState
 
 namespace SnowModel.Props.C15Bridge
 open SnowModel.Rrule
@@ -121,6 +123,38 @@ theorem special_cases_pin :
        "exclude -> self._process_special_cases(exclude, 'exclude')",
        "include -> self._process_special_cases(include, 'include')"] := by
   decide
+
+/-- the cache key of `evaluate_memorable_function` is built from the context, the positional
+    *values* and the keyword *items* — the `keyParts` of the model, for which
+    `cache_key_injective` / `distinct_calls_get_distinct_schedules` are proved -/
+theorem memo_key_pin :
+    Gen.Memorable.userKeyParts = keyParts.map KeyPart.src ∧
+    Gen.Memorable.userKeyOverride = ["kwargs.get('name')"] ∧
+    Gen.Memorable.keyTuple = ["func.__module__", "func.__name__", "user_key"] := by
+  decide
+
+/-- `Schedule.Event` is `@memorable`; `for_each` bypasses the cache; otherwise the state is looked
+    up under the key and made by calling the function (`evalMemo`) -/
+theorem memo_paths_pin :
+    Gen.Schedule.eventDecorators = ["memorable"] ∧
+    Gen.Memorable.wrapper = ["evaluate_memorable_function(self.context, func, self, args, kwargs)"] ∧
+    Gen.Memorable.recalc =
+      ["context.interpreter.current_context.recalculate_every_time", "return func(self, *args, **kwargs)"] ∧
+    Gen.Memorable.stateFunc = ["context.interpreter.get_contextual_state"] ∧
+    Gen.Memorable.stateCall =
+      [("name", "key"), ("parent", "kwargs.get('parent', None)"), ("reset_every_iteration", "False"),
+       ("make_state_func", "lambda: func(self, *args, **kwargs)")] := by
+  decide
+
+/-- `get_contextual_state`: stored value if present (and the parent unchanged), else make and store -/
+theorem memo_state_pin :
+    Gen.MemoState.stateBody =
+      ["assert not reset_every_iteration", "current_context = self.current_context",
+       "uniq_name = name or current_context.unique_context_identifier",
+       "if parent: ;     parent_obj = current_context.field_vars().get(parent) ; else: ;     parent_obj = None",
+       "current_parent, value = self.instance_states.get(uniq_name, (None, None))",
+       "if current_parent != parent_obj or value is None: ;     value = make_state_func() ;     self.instance_states[uniq_name] = [parent_obj, value]",
+       "return value"] := rfl
 
 /-- start: string → precision from its characters; `datetime` → datetime; `date` → date -/
 theorem start_pin :
